@@ -86,6 +86,9 @@ int main(int argc, char **argv) {
   if (!strcmp(argv[1], "pure")) {
     return drv_pure();
   }
+  if (!strcmp(argv[1], "cfg")) {
+    return drv_cfg();
+  }
   if (!strcmp(argv[1], "main")) {
     return drv_main();
   }
